@@ -487,18 +487,20 @@ var specs = map[string]*CheckSpec{
 	},
 	"C08": {
 		ID: "C08", Patterns: []string{vmPkg, cmdPkg}, NeedShapes: true, NeedHelper: true, Instrument: true,
-		Runs: []HarnessRun{func() HarnessRun { r := vmRun("ZZ_C08", 5); r.Shapes = sampledShapes(3); return r }(),
+		Runs: []HarnessRun{func() HarnessRun { r := vmRun("ZZ_C08", 5); r.Shapes = sampledShapes(6); return r }(),
 			{Pkg: vmPkg, Dir: "internal/machine/vm", Mod: "ledger", Fn: "ZZ_C08X", Shapes: countShapes(vmPkg, "ZZ_C08XN"), Cfg: vmCfg, Desc: harnessDesc(vmPkg, "ZZ_C08XDesc", "rest of the grammar:"), CanaryShapes: []int{0, 8}},
-			concRun("ZZ_C08Cache", "ZZ_C08CacheN", "ZZ_C08CacheDesc", "compilation cache:", 1, 2, false, nil, []int{0})},
+			concRun("ZZ_C08Cache", "ZZ_C08CacheN", "ZZ_C08CacheDesc", "compilation cache:", 1, 1, false, nil, []int{0}),
+			thoroughOnly(onlyShapes(concRun("ZZ_C08Cache", "ZZ_C08CacheN", "ZZ_C08CacheDesc", "compilation cache, budget 2:", 2, 2, false, nil, []int{}), []int{0}), "-p2")},
 		Bounds: func(tier string) map[string]any {
 			b := numgenBounds(tier)
 			if tier == "thorough" {
-				b["numscript_programs"] = fmt.Sprint(b["numscript_programs"]) + "; of the three-leaf programs the differential takes one in three (about 780 programs in all): with all of them it does not finish in 50 min"
+				b["numscript_programs"] = fmt.Sprint(b["numscript_programs"]) + "; of the three-leaf programs the differential takes one in six (about 670 programs in all): with all of them it does not finish in 50 min; the cache race runs at budget 1 on every cache scenario and at budget 2 on the first"
 			}
 			return b
 		},
 		Assumptions: append([]string{"RefSem (harness zz_ast.go) is the trusted reading of the source text", "command.Compiler.Compile is interpreted (sha256 as injective token); gcache is modelled as a bounded LFU map; two concurrent requests with different texts, cache sizes 1/2/1024, pre-emption budget 1"}, vmStubs...), Encoded: vmEncoded,
 		Rule:   "differential: real compiler (native) + real VM (symbolic) against the reference semantics; per (source,destination,asset) sums compared by the solver on every path; compile acceptance compared with the language's static rules",
+		MaxPaths: func(tier string) int { return 400000 },
 	},
 	"C12": {
 		ID: "C12", Patterns: []string{vmPkg, compilerPkg}, NeedShapes: true, NeedHelper: true,
